@@ -224,8 +224,8 @@ Proof.
   destruct o; cbn [step] in H.
   - apply HR. exact (on_new_worker_R (s, []) _ _ _ H).
   - destruct (find_proc _ w); [|discriminate]. exact (on_remove_worker_J (s, []) _ _ _ _ _ _ HC HJ H).
-  - apply HR. exact (handle_submit_array_R (s, []) _ _ _ _ _ _ _ _ _ H).
-  - destruct (bad_graph_rq _ _); [inversion H; subst; apply HR; apply Rm_refl|]. apply HR. exact (handle_submit_graph_R (s, []) _ _ _ _ _ H).
+  - destruct (bad_submit_lengths _ _); [inversion H; subst; apply HR; apply Rm_refl|]. apply HR. exact (handle_submit_array_R (s, []) _ _ _ _ _ _ _ _ _ H).
+  - destruct (bad_graph_rq _ _); [inversion H; subst; apply HR; apply Rm_refl|]. destruct (dead_dep _ _ _); [inversion H; subst; apply HR; apply Rm_refl|]. apply HR. exact (handle_submit_graph_R (s, []) _ _ _ _ _ H).
   - apply HR. unfold handle_open in H. inversion H; subst. apply Rm_refl.
   - apply HR. unfold handle_close in H. cbn in H. destruct (find_job _ j) as [jb|]; [|inversion H; subst; apply Rm_refl].
     destruct (j_open jb); [|inversion H; subst; apply Rm_refl].
